@@ -37,6 +37,13 @@ def _inside(owner, scope):
     return owner == scope or owner.startswith(scope + ".")
 
 
+# variables that are shared between the subscriptions of one observable on purpose: (module, name) -> reason
+SUB1_SHARED = {
+    ("rxsci/data/train_test_split.py", "count"): "ref_count counts the live subscribers of the connectable it wraps; the count is the point of sharing",
+    ("rxsci/data/train_test_split.py", "connectable_subscription"): "the one connection of the shared connectable, made by the first subscriber and released by the last",
+}
+
+
 def rule_sub1(ctx: Ctx) -> RuleResult:
     r = RuleResult("SUB-1", "what a handler remembers between events (closure variables it rebinds or mutates) is created by the function that makes the "
                             "subscription, not by the operator factory whose closure every subscription shares")
@@ -84,6 +91,83 @@ def rule_sub1(ctx: Ctx) -> RuleResult:
         if checked:
             r.instances += 1
             r.groups.add((site.short,))
+    # the state topology a probe carries is per subscription too: every stateful operator answers the probe by appending its states to
+    # it, and the ids it gets index the store built from the FIRST probe -- a topology that outlives the subscription hands the second
+    # subscription ids past the end of the store.  (with_store_mux_on_sources shares one topology between its sources on purpose: MX-6.)
+    prog = ctx.program
+    for site in ctx.sites:
+        sfn, m = site.subscribe_fn, site.module
+        if sfn is None:
+            continue
+        for c in ast.walk(sfn):
+            if not (isinstance(c, ast.Call) and (dotted_name(c.func) or "").split(".")[-1] == "ProbeStateTopology" and c.args and isinstance(c.args[0], ast.Name)):
+                continue
+            if m.enclosing_function(c) is not sfn:
+                continue          # a handler forwarding or rebuilding a probe it received
+            name = c.args[0].id
+            binds = [s for s in ast.walk(m.tree) if isinstance(s, ast.Assign) and any(isinstance(x, ast.Name) and x.id == name for tg in s.targets for x in ast.walk(tg))
+                     and isinstance(s.value, ast.Call) and (dotted_name(s.value.func) or "").split(".")[-1] == "StateTopology"]
+            visible = [s for s in binds if m.enclosing_function(s) is sfn or any(f is m.enclosing_function(s) for f in _enclosing_chain(m, sfn))]
+            if not visible:
+                continue
+            r.instances += 1
+            shared_by_design = any("on_sources" in (m.scopes[f].qualname if f in m.scopes else "") for f in _enclosing_chain(m, sfn))
+            ok = all(m.enclosing_function(s) is sfn for s in visible) or shared_by_design
+            r.ob(ok, lambda c=c, visible=visible, name=name, site=site: Finding(
+                "SUB-1", "%s{topology}" % site.name, m.where(visible[0]),
+                "the state topology sent with the probe ('%s') is created at %s, outside the function that makes the subscription: the stateful operators "
+                "append their states to it at every subscription, so the second subscription of the same observable gets state ids past the end of "
+                "the store that was sized by the first" % (ast.unparse(c)[:50], m.where(visible[0]))))
+    # ... and the same for what the other functions of a subscription write (a disposal flag set by the function handed to Disposable, a
+    # scheduled action): a variable they rebind belongs to the subscription
+    for site in ctx.sites:
+        sfn, m = site.subscribe_fn, site.module
+        if sfn is None:
+            continue
+        outer = list(_enclosing_chain(m, sfn))
+        for g in ast.walk(sfn):
+            if not isinstance(g, ast.FunctionDef) or g is sfn:
+                continue
+            for nl in [x for x in ast.walk(g) if isinstance(x, ast.Nonlocal) and m.enclosing_function(x) is g]:
+                for name in nl.names:
+                    if not any(isinstance(s, (ast.Assign, ast.AugAssign)) and m.enclosing_function(s) is g and any(
+                            isinstance(x, ast.Name) and x.id == name and isinstance(x.ctx, ast.Store)
+                            for tg in (s.targets if isinstance(s, ast.Assign) else [s.target]) for x in ast.walk(tg)) for s in ast.walk(g)):
+                        continue
+                    owner = None
+                    f = m.enclosing_function(g)
+                    while f is not None:
+                        scx = m.scopes.get(f)
+                        if scx is not None and (name in scx.locals or name in scx.params) and name not in scx.nonlocals:
+                            owner = f
+                            break
+                        f = m.enclosing_function(f)
+                    if owner is None or owner is sfn or not any(owner is o for o in outer):
+                        continue
+                    if (site.anchor_rel, name) in SUB1_SHARED:
+                        continue
+                    r.ob(False, lambda g=g, name=name, owner=owner, site=site, nl=nl: Finding(
+                        "SUB-1", "%s{%s}" % (site.name, name), m.where(nl),
+                        "%s rebinds '%s', a variable of %s: that scope is entered once per application of the operator (or once per observable), not "
+                        "once per subscription, so the second subscription starts from what the first one left -- a disposal flag still set, a "
+                        "counter not reset" % (g.name, name, m.scopes[owner].qualname if owner in m.scopes else owner.name),
+                        detail={"structural": True}))
+        # what the subscribe function returns is made for this subscription: a Disposable built once per operator runs its action at
+        # the first dispose only
+        for rt in [x for x in ast.walk(sfn) if isinstance(x, ast.Return) and m.enclosing_function(x) is sfn and isinstance(x.value, ast.Name)]:
+            name = rt.value.id
+            scs = m.scopes.get(sfn)
+            if scs is not None and (name in scs.locals or name in scs.params):
+                continue
+            binds = [s for f in outer for s in ast.walk(f) if isinstance(s, ast.Assign) and m.enclosing_function(s) is f and len(s.targets) == 1
+                     and isinstance(s.targets[0], ast.Name) and s.targets[0].id == name and isinstance(s.value, ast.Call)]
+            if not binds:
+                continue
+            r.ob(False, lambda rt=rt, binds=binds, name=name, site=site: Finding(
+                "SUB-1", "%s{returns %s}" % (site.name, name), m.where(binds[0]),
+                "the subscribe function returns '%s', an object built once at %s (%s) and handed to every subscriber: a disposable runs its action at "
+                "the first dispose only, so from the second subscription on disposing releases nothing" % (
+                    name, m.where(binds[0]), ast.unparse(binds[0].value)[:50]), detail={"structural": True}))
     r.require_instances(ctx.scaled(30))
     return r
 
